@@ -122,6 +122,32 @@ func genC12(tier string, rng *Rng) {
 		add("silence", nil, 300, true, entry)
 		add("silence", nil, 2400, true, entry)
 	}
+	// the same ADDRESS probed again: what one call found out about an address does not decide the next call (seed
+	// C12-18: the stand-alone detector remembered addresses that had sat out the probe window and answered
+	// "ASCII" for them at once, without probing).  Three scenarios of one address group, run alone and in order:
+	// silent, then acknowledging, then silent again; each is an ordinary case
+	for _, entry := range []string{"detector", "client"} {
+		grp := map[string]string{"detector": "da", "client": "ca"}[entry]
+		for k, c := range []replyClass{{"silence", nil}, classes[0], {"silence", nil}, classes[2]} {
+			add(c.name, c.items, 0, false, entry)
+			sc := scs[len(scs)-1]
+			sc.ID = fmt.Sprintf("sameaddr%d-%s", k, sc.ID)
+			sc.SameAddrAs, sc.Alone = grp, true
+		}
+	}
+	// the same negotiation when the caller passes a CONFIG (only the retry periods set, as every existing caller
+	// does): the 2 s window and its classification do not depend on it (seed C12-17: an optional probe timeout
+	// added to the config lost its default whenever a config was passed - a window of 0 ms)
+	for _, c := range classes[:6] {
+		for _, d := range []int{0, 500, 1500} {
+			add(c.name, c.items, d, false, "client")
+			sc := scs[len(scs)-1]
+			sc.ID = "cfg-" + sc.ID
+			sc.UseCfg, sc.ReConn = true, 2
+		}
+	}
+	add("silence", nil, 0, false, "client")
+	scs[len(scs)-1].ID, scs[len(scs)-1].UseCfg, scs[len(scs)-1].NoConn = "cfg-client-silence", true, 1
 	// two connections: what is handed to EACH onconnect depends only on that connection's reply
 	{
 		type rep struct {
